@@ -356,21 +356,45 @@ def main():
     print('wrote %d schemas, %d pairs' % (len(C), len(pair_meta)))
 
 
+def random_field(r, name, ix, lifetimes):
+    """one random field: plain / optional leaf, wrapped or aliased options, borrowed forms, custom codecs"""
+    k = r.random()
+    tag = r.choice([None, None, None, r.randint(0, 70000)])
+    if lifetimes and k < 0.35:
+        ty, codec = r.choice([("&'a str", None), ("Cow<'a, str>", None), ("Cow<'a, [u8]>", 'bytes'), ("&'a [u8]", 'bytes'),
+                              ("&'a ByteSlice", None), ("Cow<'a, ByteSlice>", None), ("Option<&'a str>", None)])
+        return F(name, ty, ix, b=True, tag=tag, codec=codec)
+    if k < 0.45:
+        ty = r.choice(LEAF_TYPES)
+        if r.random() < 0.45:
+            ty = 'Option<%s>' % ty
+        return F(name, ty, ix, tag=tag)
+    if k < 0.55:
+        return F(name, r.choice(['Box<Option<u8>>', 'Tagged<9, Option<u16>>', 'Box<u32>', 'Tagged<70000, String>']), ix, tag=tag)
+    if k < 0.65:
+        return F(name, 'OptAlias', ix, nilable=True, tag=tag, codec=r.choice([None, None, 'decode_only']))
+    if k < 0.75:
+        return F(name, 'RT0', ix, tag=tag)                       # transparent newtype around an Option (a leaf here)
+    if k < 0.85:
+        ty, codec = r.choice([('Vec<u8>', 'bytes'), ('Option<Vec<u8>>', 'bytes'), ('Opaque', 'custom'), ('Opaque', 'custom_nil'), ('Option<Opaque>', 'custom_nil_opt')])
+        return F(name, ty, ix, tag=tag, codec=codec)
+    ty = r.choice(LEAF_TYPES)
+    if r.random() < 0.45:
+        ty = 'Option<%s>' % ty
+    return F(name, ty, ix, tag=tag)
+
+
 def random_schemas(n, seed):
     r = random.Random(seed)
-    out = []
+    out = [S('RT0', 'tuple', [F('_0', 'Option<u8>', 0)], transparent=True, doc='transparent newtype around an Option')]
     for k in range(n):
         nm = 'R%03d' % k
         enc = r.choice([None, 'map'])
         nf = r.randint(1, 5)
         idxs = sorted(r.sample(range(0, 12), nf))
         r.shuffle(idxs)
-        fields = []
-        for j, ix in enumerate(idxs):
-            ty = r.choice(LEAF_TYPES)
-            if r.random() < 0.45:
-                ty = 'Option<%s>' % ty
-            fields.append(F('f%02d' % j, ty, ix, tag=r.choice([None, None, None, r.randint(0, 70000)])))
+        lifetimes = r.random() < 0.3
+        fields = [random_field(r, 'f%02d' % j, ix, lifetimes) for j, ix in enumerate(idxs)]
         kind = r.choice(['struct', 'struct', 'tuple', 'enum'])
         if kind == 'enum':
             vs = []
@@ -379,18 +403,17 @@ def random_schemas(n, seed):
                 vf = []
                 if vk != 'unit':
                     for j, ix in enumerate(sorted(r.sample(range(0, 8), r.randint(1, 3)))):
-                        ty = r.choice(LEAF_TYPES)
-                        if r.random() < 0.5:
-                            ty = 'Option<%s>' % ty
-                        vf.append(F(('f%02d' % j) if vk == 'named' else '_%d' % j, ty, ix))
+                        vf.append(random_field(r, ('f%02d' % j) if vk == 'named' else '_%d' % j, ix, lifetimes))
                 vs.append(Var('V%d' % vi, vi * 3, vk, vf, enc=r.choice([None, None, 'map', 'array']), tag=r.choice([None, None, r.randint(0, 300)])))
-            out.append(E(nm, vs, enc=enc, tag=r.choice([None, None, r.randint(0, 300)])))
+            uses_a = any(f['b'] for v in vs for f in v['fields'])
+            out.append(E(nm, vs, enc=enc, tag=r.choice([None, None, r.randint(0, 300)]), lifetimes=uses_a, index_only=False))
         elif kind == 'tuple':
             for j, f in enumerate(fields):
                 f['name'] = '_%d' % j
-            out.append(S(nm, 'tuple', fields, enc=enc, tag=r.choice([None, None, r.randint(0, 300)])))
+            out.append(S(nm, 'tuple', fields, enc=enc, tag=r.choice([None, None, r.randint(0, 300)]), lifetimes=any(f['b'] for f in fields)))
         else:
-            out.append(S(nm, 'struct', fields, enc=enc, tag=r.choice([None, None, r.randint(0, 300)])))
+            out.append(S(nm, 'struct', fields, enc=enc, tag=r.choice([None, None, r.randint(0, 300)]), lifetimes=any(f['b'] for f in fields)))
+    # at most 5 fields whose presence is a free choice per container keeps the presence vectors enumerable
     return out
 
 
